@@ -225,6 +225,9 @@ def enumerate_cases(tier):
         for n in (12, 39, 45, 60):
             cases.append({"special": "long-link-chain", "mode": mode, "n": n})
         cases.append({"special": "bind-mount", "mode": mode})
+        # several `symlinks` roots of ONE query whose walks meet (nesting, a link from one into the other)
+        for shape in ("nested-inner-first", "nested-outer-first", "link-into-other-root", "link-chain-into-other-root"):
+            cases.append({"special": "roots-overlap", "mode": mode, "shape": shape})
     return cases
 
 
@@ -283,6 +286,26 @@ def check_special_once(case):
                     os.symlink("../v/d%d" % (i + 1), base + "/out/d%d/n" % i)
             q = "name from root symlinks%s where name like 'f%%' into list" % opts
             want = collections.Counter("f%d" % i for i in range(1, n + 1))
+        elif kind == "roots-overlap":
+            # every distinct real directory is traversed at most once per QUERY, not per root
+            os.makedirs(base + "/root/sub/deep")
+            os.makedirs(base + "/out/dd")
+            for f in ("root/f1", "root/sub/f2", "root/sub/deep/f3", "out/f4", "out/dd/f5"):
+                open(base + "/" + f, "w").close()
+            shape = case["shape"]
+            if shape.startswith("nested"):
+                roots = ["root/sub", "root"] if shape == "nested-inner-first" else ["root", "root/sub"]
+                names = ["f1", "f2", "f3"]
+            else:
+                if shape == "link-into-other-root":
+                    os.symlink("../out", base + "/root/l")
+                else:
+                    os.symlink("../../out/dd", base + "/root/sub/l1")
+                    os.symlink("..", base + "/out/dd/up")
+                roots = ["root", "out"]
+                names = ["f1", "f2", "f3", "f4", "f5"]
+            q = "name from %s where name like 'f%%' into list" % ", ".join(r + " symlinks" + opts for r in roots)
+            want = collections.Counter(names)
         else:
             # one real directory visible under two paths (a bind mount), reached physically and through links
             os.makedirs(base + "/root/d")
@@ -315,7 +338,7 @@ def check_special_once(case):
                 "listed-twice" if any(c > 1 for c in got.values()) else "not-listed"
             out.add("C18/special/%s/%s" % (kind, what), query=q, lost=lost[:6], extra=extra[:6], n=case.get("n"))
         out.nontrivial = True
-        out.nt_keys = ["%s|%s|%s|%s" % (kind, case["mode"], case.get("n"), case.get("target"))]
+        out.nt_keys = ["%s|%s|%s|%s" % (kind, case["mode"], case.get("n") or case.get("shape"), case.get("target"))]
         out.classes = ["special=" + kind, "mode=" + (case["mode"] or "default")]
         out.sample = {"query": q, "rows": sum(got.values())}
     finally:
